@@ -98,6 +98,7 @@ type AScenario struct {
 	AcceptErrs    []int      `json:"accept_errors_before_connection,omitempty"`   // the accept(2) that would return the k-th connection first fails once with a transient error (EMFILE)
 	Fine          bool       `json:"fine_yields,omitempty"`                       // every larger function entry of the agent is a preemption point in this run
 	SpawnStall    int        `json:"spawn_stall,omitempty"`                       // percentage of the agent's go statements whose goroutine starts late (1 ms .. 1.5 s of simulated time, at most 6 per run)
+	YieldStall    int        `json:"yield_stall,omitempty"`                       // per mille of the scheduling points at which a goroutine of the agent is held for 1-5 ms (at most 8 per run)
 	Datadog       bool       `json:"datadog_output,omitempty"`                    // a Datadog output/buffer pair whose consumer never takes a chunk: every chunk it makes ends up in its queue root
 	Poison        bool       `json:"poison_released_buffers,omitempty"`           // released backing buffers are overwritten with 0xEE (in the other runs they keep their bytes until reused, which is what lets a stale reference read ANOTHER record)
 	Tag           string     `json:"tag"`                                         // tag template
@@ -517,6 +518,9 @@ func (w *worldA) Generate(r *simrt.Rand, profile, tier string) any {
 		if profile == "c05" && r.Bool(35) {
 			s.SpawnStall = []int{5, 15, 40}[r.Intn(3)]
 		}
+		if profile == "c05" && r.Bool(20) {
+			s.YieldStall = []int{3, 10}[r.Intn(2)]
+		}
 	default:
 		s.Fine = r.Bool(8)
 		if os.Getenv("VERIF_FINE_ALL") != "" {
@@ -930,6 +934,11 @@ func (w *worldA) Shrink(sc any) []any {
 		c.SpawnStall = 0
 		out = append(out, c)
 	}
+	if s.YieldStall != 0 {
+		c := clone()
+		c.YieldStall = 0
+		out = append(out, c)
+	}
 	for i := range s.Events {
 		c := clone()
 		c.Events = append(c.Events[:i], c.Events[i+1:]...)
@@ -1093,6 +1102,7 @@ func (w *worldA) Run(t *testing.T, profile string, sc any, cfg simrt.Config) *Ou
 	cfg.MaxSimTime = 100 * time.Hour
 	cfg.FineYields = s.Fine
 	cfg.SpawnStall = s.SpawnStall
+	cfg.YieldStall = s.YieldStall
 	if cfg.MaxSteps == 0 && s.Fine {
 		cfg.MaxSteps = 6_000_000
 	}
